@@ -13,19 +13,29 @@ PROVED, for every n:
  * `cells_in_range`: every variable index is < n·n — no variable outside v_0 … v_(n²−1), and
    no arithmetic wrap-around in `usize`.
 
-FULL STATEMENT (not proved):
-  theorem queens_correct (n) (hn : 1 ≤ n) : ∀ σ, Sem (formula n) ∅ σ ↔ NQueens n σ
-The missing part is the diagonal geometry (each pair of distinct cells on a common
-(anti-)diagonal lies together in exactly one emitted list).  The correspondence run decides
-it: exact model-set equality over all 2^(n²) boards for n ≤ 4, every solution satisfies the
-formula for n ≤ 8, every attacking pair of cells is covered by an emitted list for n ≤ 12,
-and the real solver lists exactly the solutions for n ≤ 6.
+ * `queens_correct` (the FULL STATEMENT): for every n ≥ 1 and every assignment σ,
+   `Sem (formula n) ∅ σ ↔ NQueens n σ` — one queen per row, one per column, no two on a common
+   (anti-)diagonal; `queens_correct_bool` is the same against `Puzzles.isNQueens`, the
+   executable oracle of the correspondence run (`isNQueens_iff`).  The geometry (each family
+   of lists is exactly one half of the diagonals in one direction) is `Proofs/Queens.lean`;
+ * `queens_solved`: the evaluator terminates on the emitted formula (no fixed points) and the
+   diagram it returns is true exactly on the placements — "solving it with rsbdd lists those
+   placements", composed from C01 and, for the printed rows, C10.
+
+What the theorems do not cover is the text: that the bytes the binary writes parse to
+`formula n`.  The correspondence run decides that on every generated n (tree equality), and
+re-decides the semantic claim on the parsed tree: exact model-set equality over all 2^(n²)
+boards for n ≤ 4, every solution satisfies the formula for n ≤ 8, every attacking pair of
+cells is covered by an emitted list for n ≤ 12, the real solver lists exactly the solutions
+for n ≤ 6.
 -/
 import Rsbdd.Proofs.GenSem
 import Rsbdd.Model.Gen.Queens
+import Rsbdd.Proofs.Queens
+import Rsbdd.Proofs.GenGood
 
 namespace Rsbdd.C15
-open BDD Gen.Queens
+open BDD Gen.Queens Puzzles
 
 theorem sem_formula_iff (n : Nat) (σ : Asg) :
     Sem (formula n) FEnv.empty σ ↔ ∀ c ∈ constraints n, c.op.sem (trueCount c.cells σ) c.bound := by
@@ -109,8 +119,147 @@ theorem cells_in_range (n : Nat) : ∀ c ∈ constraints n, ∀ k ∈ c.cells, k
     obtain ⟨j, hj, rfl⟩ := hk
     have := cell_lt hj hi; omega
 
+/-- the emitted constraints, family by family -/
+theorem constraints_iff (n : Nat) (σ : Asg) :
+    (∀ c ∈ constraints n, c.op.sem (trueCount c.cells σ) c.bound) ↔
+      (∀ i, i < n → trueCount ((List.range (n - i)).map (fun j => i + j * (n + 1))) σ ≤ 1) ∧
+      (∀ i, 1 ≤ i → i < n → trueCount ((List.range (n - i)).map (fun j => i * n + j * (n + 1))) σ ≤ 1) ∧
+      (∀ i, i < n → trueCount ((List.range (i + 1)).map (fun j => i + j * (n - 1))) σ ≤ 1) ∧
+      (∀ i, 1 ≤ i → i < n → trueCount ((List.range i).map (fun j => n * (n - j) - (i - j))) σ ≤ 1) ∧
+      (∀ i, i < n → trueCount ((List.range n).map (fun j => j + i * n)) σ = 1) ∧
+      (∀ i, i < n → trueCount ((List.range n).map (fun j => i + j * n)) σ = 1) := by
+  simp only [constraints, List.mem_append, or_imp, forall_and, diag1a, diag1b, diag2a, diag2b, rows, cols,
+    List.mem_map, List.mem_range, mem_drop_range, forall_exists_index, and_imp, forall_apply_eq_imp_iff₂,
+    CntOp.sem, and_assoc]
+  constructor
+  · rintro ⟨a, b, c, d, e, f⟩
+    exact ⟨a, fun i h1 h2 => b _ i h1 h2 rfl, c, fun i h1 h2 => d _ i h1 h2 rfl, e, f⟩
+  · rintro ⟨a, b, c, d, e, f⟩
+    refine ⟨a, ?_, c, ?_, e, f⟩
+    · rintro x i h1 h2 rfl; exact b i h1 h2
+    · rintro x i h1 h2 rfl; exact d i h1 h2
+
+
+theorem queens_correct (n : Nat) (hn : 1 ≤ n) (σ : Asg) :
+    Sem (formula n) FEnv.empty σ ↔ NQueens n σ := by
+  rw [sem_formula_iff, constraints_iff]
+  have rowfun : ∀ i, (fun j => j + i * n) = (fun c => i * n + c) := fun i => funext fun j => Nat.add_comm _ _
+  have colfun : ∀ i, (fun j => i + j * n) = (fun r => r * n + i) := fun i => funext fun j => Nat.add_comm _ _
+  constructor
+  · rintro ⟨h1a, h1b, h2a, h2b, hr, hc⟩
+    refine ⟨fun r h => by rw [← rowfun]; exact hr r h, fun c h => by rw [← colfun]; exact hc c h, ?_⟩
+    intro r c r' c' hr_ hc_ hr'_ hc'_ hne qa qb
+    have hrr : r ≠ r' ∨ (r = r' ∧ c ≠ c') := by omega
+    constructor
+    · -- main diagonals: column − row is constant
+      intro hd
+      have hrne : r ≠ r' := by omega
+      by_cases hcr : r ≤ c
+      · -- upper half, list i = c − r, positions r and r'
+        have h := h1a (c - r) (by omega)
+        refine no_two h (a := r) (b := r') (by omega) (by omega) hrne ?_ ?_
+        · show σ (c - r + r * (n + 1)) = true
+          rw [d1a_cell]; rw [show c - r + r = c by omega]; exact qa
+        · show σ (c - r + r' * (n + 1)) = true
+          rw [d1a_cell]; rw [show c - r + r' = c' by omega]; exact qb
+      · -- lower half, list i = r − c, positions c and c'
+        have h := h1b (r - c) (by omega) (by omega)
+        refine no_two h (a := c) (b := c') (by omega) (by omega) (by omega) ?_ ?_
+        · show σ ((r - c) * n + c * (n + 1)) = true
+          rw [d1b_cell]; rw [show r - c + c = r by omega]; exact qa
+        · show σ ((r - c) * n + c' * (n + 1)) = true
+          rw [d1b_cell]; rw [show r - c + c' = r' by omega]; exact qb
+    · -- anti-diagonals: row + column is constant
+      intro hd
+      have hrne : r ≠ r' := by omega
+      by_cases hs : r + c < n
+      · have h := h2a (r + c) hs
+        refine no_two h (a := r) (b := r') (by omega) (by omega) hrne ?_ ?_
+        · show σ (r + c + r * (n - 1)) = true
+          rw [d2a_cell n (r + c) r (by omega) hn]; rw [show r + c - r = c by omega]; exact qa
+        · show σ (r + c + r' * (n - 1)) = true
+          rw [d2a_cell n (r + c) r' (by omega) hn]; rw [show r + c - r' = c' by omega]; exact qb
+      · have h := h2b (2 * n - 1 - (r + c)) (by omega) (by omega)
+        refine no_two h (a := n - 1 - r) (b := n - 1 - r') (by omega) (by omega) (by omega) ?_ ?_
+        · show σ (n * (n - (n - 1 - r)) - (2 * n - 1 - (r + c) - (n - 1 - r))) = true
+          rw [d2b_cell n _ _ (by omega) (by omega)]
+          rw [show n - 1 - (n - 1 - r) = r by omega, show n - (2 * n - 1 - (r + c)) + (n - 1 - r) = c by omega]
+          exact qa
+        · show σ (n * (n - (n - 1 - r')) - (2 * n - 1 - (r + c) - (n - 1 - r'))) = true
+          rw [d2b_cell n _ _ (by omega) (by omega)]
+          rw [show n - 1 - (n - 1 - r') = r' by omega, show n - (2 * n - 1 - (r + c)) + (n - 1 - r') = c' by omega]
+          exact qb
+  · rintro ⟨hr, hc, hd⟩
+    refine ⟨?_, ?_, ?_, ?_, fun i h => by rw [rowfun]; exact hr i h, fun i h => by rw [colfun]; exact hc i h⟩
+    · intro i hi
+      rw [trueCount_range_le_one]
+      rintro a b hab hb ⟨qa, qb⟩
+      rw [d1a_cell] at qa qb
+      have := hd a (i + a) b (i + b) (by omega) (by omega) (by omega) (by omega) (by omega) qa qb
+      omega
+    · intro i hi1 hi
+      rw [trueCount_range_le_one]
+      rintro a b hab hb ⟨qa, qb⟩
+      rw [d1b_cell] at qa qb
+      have := hd (i + a) a (i + b) b (by omega) (by omega) (by omega) (by omega) (by omega) qa qb
+      omega
+    · intro i hi
+      rw [trueCount_range_le_one]
+      rintro a b hab hb ⟨qa, qb⟩
+      rw [d2a_cell n i a (by omega) hn] at qa
+      rw [d2a_cell n i b (by omega) hn] at qb
+      have := hd a (i - a) b (i - b) (by omega) (by omega) (by omega) (by omega) (by omega) qa qb
+      omega
+    · intro i hi1 hi
+      rw [trueCount_range_le_one]
+      rintro a b hab hb ⟨qa, qb⟩
+      rw [d2b_cell n i a (by omega) hi] at qa
+      rw [d2b_cell n i b (by omega) hi] at qb
+      have := hd (n - 1 - a) (n - i + a) (n - 1 - b) (n - i + b) (by omega) (by omega) (by omega) (by omega) (by omega) qa qb
+      omega
+
+/-- the statement of C15 against the executable specification the correspondence run uses -/
+theorem queens_correct_bool (n : Nat) (hn : 1 ≤ n) (σ : Asg) :
+    Sem (formula n) FEnv.empty σ ↔ isNQueens n σ = true :=
+  (queens_correct n hn σ).trans (isNQueens_iff n σ).symm
+
+theorem formula_map (n : Nat) : formula n =
+    ((constraints n).map Constraint.toFormula).foldr (fun f acc => .bin .and f acc) .true_ := by
+  unfold formula
+  induction constraints n with
+  | nil => rfl
+  | cons c cs ih => simp [ih]
+
+theorem formula_good (n : Nat) : GoodF (formula n) ∧ C01.NoFix (formula n) := by
+  rw [formula_map]
+  constructor
+  · apply goodF_conj
+    intro f hf
+    simp only [List.mem_map] at hf
+    obtain ⟨c, _, rfl⟩ := hf
+    simp only [Constraint.toFormula, GoodF]
+    exact goodFL_map_var _
+  · apply noFix_conj
+    intro f hf
+    simp only [List.mem_map] at hf
+    obtain ⟨c, _, rfl⟩ := hf
+    simp only [Constraint.toFormula, C01.NoFix]
+    exact noFixL_map_var _
+
+/-- "solving it with rsbdd lists those placements": the evaluator returns on the emitted formula,
+and the diagram it returns is true exactly on the placements of n non-attacking queens -/
+theorem queens_solved (n : Nat) (hn : 1 ≤ n) (iters : Nat) :
+    ∃ b, Formula.evalF iters (Formula.depth (formula n)) (formula n) = some b ∧ ROBDD b ∧
+      ∀ σ, (eval b σ = true ↔ NQueens n σ) := by
+  obtain ⟨b, hb, hr, hs⟩ := solved (formula n) (formula_good n).1 (formula_good n).2 iters
+  exact ⟨b, hb, hr, fun σ => (hs σ).trans (queens_correct n hn σ)⟩
+
 -- non-vacuity: the 2-queens formula (which is unsatisfiable) and its first constraint
 example : (constraints 2).length = 10 := by decide
 example : (constraints 4).head? = some ⟨[0, 5, 10, 15], .atMost, 1⟩ := by decide
+
+-- the specification is satisfiable and refutable: a solution and a non-solution of 4 queens
+example : isNQueens 4 (fun k => k ∈ [1, 7, 8, 14]) = true := by decide
+example : isNQueens 4 (fun k => k ∈ [0, 5, 10, 15]) = false := by decide
 
 end Rsbdd.C15
